@@ -2,7 +2,11 @@
 
 package aggregator
 
-import "github.com/grafana/carbon-relay-ng/matcher"
+import (
+	"time"
+
+	"github.com/grafana/carbon-relay-ng/matcher"
+)
 
 // VerifC14AggParams: whatever interval / wait / regex an aggregation is configured with, it is either
 // rejected with an error by the constructor or works: creating it, letting its goroutines run and
@@ -24,5 +28,35 @@ func VerifC14AggParams() {
 	verifSettle()
 	a.AddMaybe([][]byte{[]byte("ab"), []byte("1"), []byte("1500000000")}, 1, 1500000000)
 	verifSettle()
+	verifCover("end")
+}
+
+// VerifC14AggTraffic: no sequence of up to two points with arbitrary timestamps (fresh, old, far future),
+// a flush tick and a shutdown can crash the aggregation worker.
+func VerifC14AggTraffic() {
+	InitMetrics()
+	m, err := matcher.New("", "", "", "", "^a(.*)", "")
+	if err != nil {
+		return
+	}
+	out := make(chan []byte, 16)
+	tick := make(chan time.Time, 1)
+	a, err := NewMocked(verifParam("fun"), m, "o.$1", verifBool("cache"), 10, 20, false, out, 8, verifNow, tick)
+	if err != nil {
+		return
+	}
+	n := 1 + verifChoice("npoints", 2)
+	for i := 0; i < n; i++ {
+		ts := verifUint32("ts")
+		a.AddMaybe([][]byte{[]byte("ab"), []byte("1"), []byte("0")}, 1, ts)
+		verifSettle()
+		if verifBool("tick") {
+			tick <- time.Unix(verifClock+int64(verifUint16("tickoffset")), 0)
+			verifSettle()
+		}
+	}
+	tick <- time.Unix(verifClock+100, 0)
+	verifSettle()
+	a.Shutdown()
 	verifCover("end")
 }
